@@ -252,12 +252,6 @@ theorem peek_append_step {n rest rest' : Bytes} (h : peek (n ++ rest) ≠ 36)
   | nil => exact h'
   | cons c n => exact h
 
-theorem peek_append_of_ne_nil {n : Bytes} (rest : Bytes) (h : n ≠ []) :
-    peek (n ++ rest) = peek n := by
-  cases n with
-  | nil => exact absurd rfl h
-  | cons c n => rfl
-
 /-- what a name-stop byte that is neither ':' nor a terminator can be -/
 theorem nameStop_cases {c : Nat} (h : nameStop c = true) (h58 : c ≠ 58) (ht : term c = false) :
     isWs c = true ∨ c = 40 := by
